@@ -1030,6 +1030,81 @@ class ImportOrder(Part):
         return None
 
 
+REWRITE_SOURCES = [
+    '<?xml version="1.0"?>\n<a><input checked="${flag}" selected="${not flag}"/>\r\n</a>',
+    '<a><input checked="${flag}" selected="${not flag}"/>\r\n</a>',
+    '<html><head><meta http-equiv="Content-Type" content="text/html; '
+    'charset=utf-8"/></head><input checked="${flag}"/>\r\n</html>',
+    '<a tal:attributes="disabled flag">x\ry</a>',
+    '<?xml version="1.0" encoding="utf-8"?><a tal:attributes="disabled flag">x\r\ny</a>',
+    "<p>${flag}</p>",
+    '<div tal:define="global g 1">${g}</div>',
+]
+
+
+class Rewrite(Part):
+    """An instance that is given a new source (write()) renders it exactly
+    like an instance compiled from that source right away: nothing of the
+    earlier source - its document type, its macros, its global names -
+    carries over."""
+    name = "rewrite"
+    examples = {"quick": 150, "thorough": 3000}
+
+    def strategy(self, tier):
+        return st.fixed_dictionaries({
+            "sources": st.lists(st.integers(0, len(REWRITE_SOURCES) - 1),
+                                min_size=2, max_size=4),
+            "flag": st.booleans(),
+            "render_between": st.booleans(),
+            "as_bytes": st.booleans(),
+        })
+
+    def nontrivial(self, case):
+        return len(set(case["sources"])) >= 2
+
+    def labels(self, case):
+        xml = [REWRITE_SOURCES[i].startswith("<?xml")
+               for i in case["sources"]]
+        if any(a and not b for a, b in zip(xml, xml[1:])):
+            yield "xml_then_html"
+        if any(b and not a for a, b in zip(xml, xml[1:])):
+            yield "html_then_xml"
+
+    def oracle(self, case):
+        from chameleon import PageTemplate
+
+        def body(i):
+            src = REWRITE_SOURCES[i]
+            return src.encode("utf-8") if case["as_bytes"] else src
+        o = run(PageTemplate, body(case["sources"][0]))
+        if not o.ok:
+            return Mismatch("rewrite:compile raises " + o.exc_name,
+                            {"case": case, "outcome": o.brief()})
+        t = o.value
+        for k, i in enumerate(case["sources"]):
+            if k:
+                o = run(t.write, body(i))
+                if not o.ok:
+                    return Mismatch("rewrite:write raises " + o.exc_name,
+                                    {"case": case, "outcome": o.brief()})
+            if k == len(case["sources"]) - 1 or case["render_between"]:
+                got = run(t.render, flag=case["flag"])
+                ref = run(lambda: PageTemplate(body(i)).render(
+                    flag=case["flag"]))
+                g = got.value if got.ok else "exc " + got.exc_name
+                r = ref.value if ref.ok else "exc " + ref.exc_name
+                fresh = PageTemplate(body(i))
+                if g != r or t.content_type != fresh.content_type:
+                    return Mismatch(
+                        "rewrite:instance with a history differs from a "
+                        "fresh one", {"case": case, "step": k,
+                                      "source": REWRITE_SOURCES[i],
+                                      "got": g, "fresh": r,
+                                      "content_type": [t.content_type,
+                                                       fresh.content_type]})
+        return None
+
+
 CHECK = Check(
     "C14", "exploration",
     rule=("determinism: generated templates x sequences of 3..5 render calls "
@@ -1044,7 +1119,7 @@ CHECK = Check(
           "(quick) or all (thorough) double-preemption schedules and drawn "
           "3-thread schedules; every schedule is a distinct non-trivial case"),
     parts=[Determinism(), EngineObjects(), Isolation(), RenderArgs(),
-           ImportOrder()],
+           ImportOrder(), Rewrite()],
     stages=[HashSeed(), FreeThreads(), Schedules()],
     assumptions=[
         "preemption inside C-level calls or between the bytecodes of one "
